@@ -188,6 +188,19 @@ CHECKS = {
         note='Numeric flags (simplex, unit interval, argmin with 1e-4 tie tolerance, norms) are evaluated by the driver and '
              'judged by TLC.',
         design='5/C17'),
+    'C18': dict(
+        technique='TLA+ spec WalshHadamard.tla (the code\'s shape loop and per-axis einsum vs. the Sylvester closed form '
+                  'on every basis vector; rotation identities in integers for every sign vector) model-checked by TLC; '
+                  'TLC-emitted Sylvester columns and the cross-checked closed form replayed against the real transform '
+                  'for every length / block size; rotation replayed on many shapes, keys, scales and on trees',
+        text='TLC proves fast transform = Sylvester matrix for all lengths 2^0..2^5 (2^6 thorough) and block sizes '
+             '2^1..2^6 by transforming every basis vector, and norm preservation / invertibility of the rotation for '
+             'every sign vector on sizes 1..9; the real transform of the identity (all lengths to 2^9, sparse vectors to '
+             '2^12/2^14, block size explicit or defaulted) must equal the Sylvester matrix exactly, twice = n * id, and '
+             'the rotation must preserve the norm, be inverted by the same key, differ between keys.',
+        note='Block sizes giving more than 6 einsum axes are checked on the specification only (XLA:CPU compile time); '
+             'rank-0 inputs reported as information.',
+        design='5/C18'),
     'C19': dict(
         technique='TLA+ spec Cache.tla model-checked by TLC (kills, torn writes, I/O errors at every step, liveness); '
                   'real maybe_download/maybe_lzma_decompress explored breadth-first over fault-reachable cache '
